@@ -8,6 +8,7 @@ mod ops;
 mod oracle;
 mod policy;
 mod run;
+mod threads;
 mod world;
 
 use vcommon::alloc::MonAlloc;
